@@ -253,7 +253,7 @@ def descendants(n: dict):
 # --------------------------------------------------------------------------------------------------
 class Analysis:
     __slots__ = ("expected", "alternatives", "unclaimed", "runs", "risky", "literal_brace", "malformed",
-                 "kinds", "n_runs", "features")
+                 "kinds", "n_runs", "features", "symbols")
 
     def __init__(self):
         self.expected = None
@@ -266,6 +266,7 @@ class Analysis:
         self.kinds = set()
         self.n_runs = 0
         self.features = set()
+        self.symbols = set()        # mapped source characters met in run texts
 
 
 def _has_token(text: str) -> bool:
@@ -289,8 +290,10 @@ def _render1(n: dict, a: Analysis, nd: bool, collect: bool) -> str:
                 a.runs.append(map_text(t))
             if n.get("p"):
                 a.features.add("run-with-rPr")
-            if any(c in SYMBOLS for c in t):
+            sy = [c for c in t if c in SYMBOLS]
+            if sy:
                 a.features.add("mapped-symbol")
+                a.symbols.update(sy)
             if any(c in "()[]|" for c in t):
                 a.features.add("bracket-text")
         return map_text(t)
